@@ -86,9 +86,9 @@ func (f *c14Filter) OnReceive(ctx context.Context, headers api.HeaderMap, buf ap
 	case "terminate":
 		ret = api.StreamFiltertermination
 	case "hijack":
-		f.rh.SendHijackReply(api.RouterUnavailableCode, headers)
+		f.rh.SendHijackReply(c14HijackCode(), headers)
 	case "hijack-stop":
-		f.rh.SendHijackReply(api.RouterUnavailableCode, headers)
+		f.rh.SendHijackReply(c14HijackCode(), headers)
 		ret = api.StreamFilterStop
 	case "direct":
 		resp := bolt.NewRpcResponse(0, bolt.ResponseStatusServerThreadpoolBusy, hpHeader(map[string]string{"token": "direct-by-filter"}), buffer.NewIoBufferString("resp-of-direct-by-filter"))
@@ -115,6 +115,21 @@ func (f *c14Filter) Append(ctx context.Context, headers api.HeaderMap, buf api.I
 	}
 	f.log("send", string(ret))
 	return ret
+}
+
+func c14HijackCode() int {
+	if sc := c14Cur.sc; sc != nil && sc.HijackCode != 0 {
+		return sc.HijackCode
+	}
+	return api.RouterUnavailableCode
+}
+
+// bolt status the hijack reply carries
+func c14HijackStatus(sc *hpScenario) uint16 {
+	if sc.HijackCode == 503 {
+		return bolt.ResponseStatusServerThreadpoolBusy
+	}
+	return bolt.ResponseStatusNoProcessor
 }
 
 func c14Install() {
@@ -286,7 +301,7 @@ func c14Check(sc *hpScenario, obs *hpObs, r *vrt.Result, report func(kind, detai
 			for _, e := range recv {
 				v := sc.Filters[e.idx].Verdict
 				if v == "hijack" || v == "hijack-stop" {
-					want = bolt.ResponseStatusNoProcessor
+					want = c14HijackStatus(sc)
 				} else if v == "direct" {
 					want = bolt.ResponseStatusServerThreadpoolBusy
 				} else {
@@ -298,7 +313,7 @@ func c14Check(sc *hpScenario, obs *hpObs, r *vrt.Result, report func(kind, detai
 			ok := false
 			for _, e := range recv {
 				v := sc.Filters[e.idx].Verdict
-				if (v == "hijack" || v == "hijack-stop") && down[0].Status == bolt.ResponseStatusNoProcessor {
+				if (v == "hijack" || v == "hijack-stop") && down[0].Status == c14HijackStatus(sc) {
 					ok = true
 				}
 				if v == "direct" && down[0].Status == bolt.ResponseStatusServerThreadpoolBusy {
@@ -397,6 +412,13 @@ func TestVerifC14Filters(t *testing.T) {
 	// thorough: receive chains 0..3
 	scs := c14Scenarios(vreport.Pick(2, 3), 2, []string{upReply200})
 	scs = append(scs, c14Scenarios(1, 1, []string{upSilent, upClose})...)
+	// a filter's own denial must not be taken for a failed upstream try: the same chains under a
+	// retry policy, with a hijack status the policy would retry (503)
+	for _, sc := range c14Scenarios(vreport.Pick(1, 2), 1, []string{upReply200}) {
+		sc.RetryOn, sc.NumRetries, sc.HijackCode, sc.Hosts = true, 1, 503, 2
+		sc.Name += " retry_on hijack=503"
+		scs = append(scs, sc)
+	}
 	bound := vreport.Pick(1, 1)
 	for i, sc := range scs {
 		if only := os.Getenv("VERIF_C14_ONLY"); only != "" {
